@@ -69,6 +69,19 @@ def run_history(spec, y_full, n0, steps, case, shift=0):
     p = sut(f.predict, None if need_fit and case["fh_when"] == "fit" and not case["repeat_fh"] else fh_for(cutoff))
     discs += check_pred(p, cutoff, steps, spec, "after fit")
     obs.append(("pred0", None if isinstance(p, Raised) else (_labels(p.index), p.to_numpy(dtype=float).tolist())))
+    if _subset_consistent(spec) and not pools.needs_fh_in_fit(spec) and not discs and not isinstance(p, Raised) and steps != list(range(1, steps[-1] + 1)):
+        # the value labelled cutoff+k is the k-step-ahead forecast whichever other steps are
+        # requested with it: it equals the same label of the contiguous forecast 1..max(fh)
+        import copy
+
+        f3 = sut(copy.deepcopy, f)
+        full = sut(f3.predict, list(range(1, steps[-1] + 1))) if not isinstance(f3, Raised) else f3
+        if not isinstance(full, Raised) and isinstance(full, pd.Series) and len(full) == steps[-1]:
+            want_vals = full.to_numpy(dtype=float)[[h - 1 for h in steps]]
+            if len(p) == len(steps) and not np.allclose(p.to_numpy(dtype=float), want_vals, rtol=1e-9, atol=1e-9, equal_nan=True):
+                discs.append(D("value_at_label_depends_on_requested_set", "%s fh=%s: got %s, the same labels of the forecast for steps 1..%d are %s"
+                               % (pools.describe(spec), steps, p.tolist(), steps[-1], want_vals.tolist())))
+                return obs, discs
     if case.get("other_kind") and not pools.needs_fh_in_fit(spec) and not discs:
         # the same NUMBERS as a horizon of the other kind (absolute <-> relative) mean other
         # time points unless the cutoff is 0: the forecaster must answer for the horizon given now
@@ -144,6 +157,20 @@ def _whole_series_window(spec):
         return any(_whole_series_window(v) for v in spec.values())
     if isinstance(spec, list):
         return any(_whole_series_window(v) for v in spec)
+    return False
+
+
+def _subset_consistent(spec):
+    """Forecasters whose h-step forecast is defined independently of the set of requested steps."""
+    k = spec["kind"]
+    if k in ("naive", "trend", "expsmooth", "ets", "theta"):
+        return True
+    if k == "reduce":
+        return spec["strategy"] == "recursive"
+    if k in ("ensemble", "multiplex", "online_ensemble"):
+        return all(_subset_consistent(m) for m in spec["members"])
+    if k == "pipeline":
+        return _subset_consistent(spec["forecaster"])
     return False
 
 
